@@ -78,7 +78,7 @@ void vh_out_snapshot(struct vh_ctx *c, const char *name) {
   vh_out(c, "%zu:%016llx", mf->len, (unsigned long long) vh_fnv1a(mf->data, mf->len));
   if (mf->len <= 64) {
     vh_out(c, ":");
-    vh_out_hex(c, mf->data, mf->len);
+    if (mf->len) vh_out_hex(c, mf->data, mf->len); else vh_out(c, "-");
   }
 }
 
@@ -290,37 +290,57 @@ static void out_err(struct vh_ctx *c, long ii) {
 /* ------------------------------------------------------------------ */
 /* dumps                                                               */
 
+/* F(c, lvalue): the value of a library structure field that is about to be
+ * printed.  In the MSan build a field that was never initialised is reported
+ * as `MONITOR uninit-field EXPR` (and then treated as initialised) instead
+ * of silently printing whatever the fill byte left there. */
+#ifdef VH_MSAN
+# include <sanitizer/msan_interface.h>
+static void chk_field(struct vh_ctx *c, const volatile void *p, size_t n, const char *expr) {
+  if (__msan_test_shadow((const void *) p, n) >= 0) {
+    __msan_unpoison((const void *) p, n);
+    vh_monitor(c, "uninit-field %s", expr);
+  }
+}
+# define F(c, lv) (chk_field((c), &(lv), sizeof(lv), #lv), (lv))
+#else
+# define F(c, lv) (lv)
+#endif
+
 static int cab_live(struct vh_ctx *c, const void *p) { return hand_of(c, VH_CAB, p) >= 0; }
 
 static void dump_cab_one(struct vh_ctx *c, struct mscabd_cabinet *cab) {
   struct mscabd_folder *fol;
   struct mscabd_file *fi;
   long nfol = 0, nfi = 0, j, h = hand_of(c, VH_CAB, cab);
-  for (fol = cab->folders; fol; fol = fol->next) nfol++;
-  for (fi = cab->files; fi; fi = fi->next) nfi++;
+  for (fol = F(c, cab->folders); fol; fol = F(c, fol->next)) nfol++;
+  for (fi = F(c, cab->files); fi; fi = F(c, fi->next)) nfi++;
   if (h >= 0) vh_out(c, "cab h%ld", h); else vh_out(c, "cab h?");
   vh_out(c, " off=%lld len=%u set=%u idx=%u hres=%u flags=0x%x prevname=",
-         (long long) cab->base_offset, cab->length, (unsigned) cab->set_id,
-         (unsigned) cab->set_index, (unsigned) cab->header_resv, (unsigned) cab->flags);
-  out_cstr(c, cab->prevname);
-  vh_out(c, " nextname="); out_cstr(c, cab->nextname);
-  vh_out(c, " previnfo="); out_cstr(c, cab->previnfo);
-  vh_out(c, " nextinfo="); out_cstr(c, cab->nextinfo);
+         (long long) F(c, cab->base_offset), F(c, cab->length), (unsigned) F(c, cab->set_id),
+         (unsigned) F(c, cab->set_index), (unsigned) F(c, cab->header_resv),
+         (unsigned) F(c, cab->flags));
+  out_cstr(c, F(c, cab->prevname));
+  vh_out(c, " nextname="); out_cstr(c, F(c, cab->nextname));
+  vh_out(c, " previnfo="); out_cstr(c, F(c, cab->previnfo));
+  vh_out(c, " nextinfo="); out_cstr(c, F(c, cab->nextinfo));
   vh_out(c, " nfolders=%ld nfiles=%ld", nfol, nfi);
   vh_out_nl(c);
   for (j = 0, fol = cab->folders; fol; fol = fol->next, j++) {
-    vh_out(c, "folder %ld comp=0x%x nblocks=%u", j, (unsigned) fol->comp_type, fol->num_blocks);
+    vh_out(c, "folder %ld comp=0x%x nblocks=%u", j, (unsigned) F(c, fol->comp_type),
+           F(c, fol->num_blocks));
     vh_out_nl(c);
   }
   for (j = 0, fi = cab->files; fi; fi = fi->next, j++) {
     long fj = 0;
-    for (fol = cab->folders; fol && fol != fi->folder; fol = fol->next) fj++;
+    for (fol = cab->folders; fol && fol != F(c, fi->folder); fol = fol->next) fj++;
     if (!fol) fj = -1;
     vh_out(c, "file %ld name=", j);
-    out_cstr(c, fi->filename);
+    out_cstr(c, F(c, fi->filename));
     vh_out(c, " len=%u attr=0x%x date=%d/%d/%d time=%d:%d:%d folder=%ld off=%u",
-           fi->length, (unsigned) fi->attribs, fi->date_y, (int) fi->date_m, (int) fi->date_d,
-           (int) fi->time_h, (int) fi->time_m, (int) fi->time_s, fj, fi->offset);
+           F(c, fi->length), (unsigned) F(c, fi->attribs), F(c, fi->date_y),
+           (int) F(c, fi->date_m), (int) F(c, fi->date_d), (int) F(c, fi->time_h),
+           (int) F(c, fi->time_m), (int) F(c, fi->time_s), fj, F(c, fi->offset));
     vh_out_nl(c);
   }
 }
@@ -328,16 +348,16 @@ static void dump_cab_one(struct vh_ctx *c, struct mscabd_cabinet *cab) {
 static void dump_cab(struct vh_ctx *c, struct mscabd_cabinet *cab) {
   size_t guard = c->nhands + 1;
   /* only walk through cabinets the harness knows to be alive */
-  for (; cab && cab_live(c, cab) && guard--; cab = cab->next) dump_cab_one(c, cab);
+  for (; cab && cab_live(c, cab) && guard--; cab = F(c, cab->next)) dump_cab_one(c, cab);
 }
 
 static void dump_chm_files(struct vh_ctx *c, const char *word, struct mschmd_file *fi) {
   long j;
-  for (j = 0; fi; fi = fi->next, j++) {
+  for (j = 0; fi; fi = F(c, fi->next), j++) {
     vh_out(c, "%s %ld name=", word, j);
-    out_cstr(c, fi->filename);
-    if (fi->section) vh_out(c, " sec=%u", fi->section->id); else vh_out(c, " sec=-1");
-    vh_out(c, " off=%lld len=%lld", (long long) fi->offset, (long long) fi->length);
+    out_cstr(c, F(c, fi->filename));
+    if (F(c, fi->section)) vh_out(c, " sec=%u", F(c, fi->section->id)); else vh_out(c, " sec=-1");
+    vh_out(c, " off=%lld len=%lld", (long long) F(c, fi->offset), (long long) F(c, fi->length));
     vh_out_nl(c);
   }
 }
@@ -345,29 +365,29 @@ static void dump_chm_files(struct vh_ctx *c, const char *word, struct mschmd_fil
 static void dump_chm(struct vh_ctx *c, long h, struct mschmd_header *chm) {
   vh_out(c, "chm h%ld len=%lld ver=%u ts=%u lang=%u diroff=%lld nchunks=%u chunksize=%u "
          "density=%u depth=%u indexroot=%u firstpmgl=%u lastpmgl=%u sec0off=%lld",
-         h, (long long) chm->length, chm->version, chm->timestamp, chm->language,
-         (long long) chm->dir_offset, chm->num_chunks, chm->chunk_size, chm->density,
-         chm->depth, chm->index_root, chm->first_pmgl, chm->last_pmgl,
-         (long long) chm->sec0.offset);
+         h, (long long) F(c, chm->length), F(c, chm->version), F(c, chm->timestamp),
+         F(c, chm->language), (long long) F(c, chm->dir_offset), F(c, chm->num_chunks),
+         F(c, chm->chunk_size), F(c, chm->density), F(c, chm->depth), F(c, chm->index_root),
+         F(c, chm->first_pmgl), F(c, chm->last_pmgl), (long long) F(c, chm->sec0.offset));
   vh_out_nl(c);
-  dump_chm_files(c, "file", chm->files);
-  dump_chm_files(c, "sysfile", chm->sysfiles);
+  dump_chm_files(c, "file", F(c, chm->files));
+  dump_chm_files(c, "sysfile", F(c, chm->sysfiles));
 }
 
 static void dump_szdd(struct vh_ctx *c, long h, struct msszddd_header *s) {
-  vh_out(c, "szdd h%ld fmt=%d len=%lld missing=%02x", h, s->format, (long long) s->length,
-         (unsigned) (unsigned char) s->missing_char);
+  vh_out(c, "szdd h%ld fmt=%d len=%lld missing=%02x", h, F(c, s->format),
+         (long long) F(c, s->length), (unsigned) (unsigned char) F(c, s->missing_char));
   vh_out_nl(c);
 }
 
 static void dump_kwaj(struct vh_ctx *c, long h, struct mskwajd_header *k) {
   vh_out(c, "kwaj h%ld comp=%u dataoff=%lld flags=0x%x len=%lld name=", h,
-         (unsigned) k->comp_type, (long long) k->data_offset, (unsigned) k->headers,
-         (long long) k->length);
-  out_cstr(c, k->filename);
+         (unsigned) F(c, k->comp_type), (long long) F(c, k->data_offset),
+         (unsigned) F(c, k->headers), (long long) F(c, k->length));
+  out_cstr(c, F(c, k->filename));
   vh_out(c, " extra=");
-  if (!k->extra) vh_out(c, "-");
-  else if (!k->extra_length) vh_out(c, "=");
+  if (!F(c, k->extra)) vh_out(c, "-");
+  else if (!F(c, k->extra_length)) vh_out(c, "=");
   else vh_out_hex(c, (unsigned char *) k->extra, k->extra_length);
   vh_out_nl(c);
 }
